@@ -459,13 +459,13 @@ pub fn run(args: &Args) -> i32 {
     if verbose { eprintln!("[c06] stage 8 {:?}", t0.elapsed()); }
     // close to the thresholds and to 2^64
     let near = |bits: u32, hi: bool| -> Box<dyn Fn(&Uint) -> bool> {
-        // top 9 bits after the leading one all ones (just below 2^bits) or all zeros (just above 2^(bits-1))
+        // the 9 bits after the leading one: all ones (just below 2^bits) or below 1/8 (just above 2^(bits-1))
         Box::new(move |p: &Uint| {
             let t = (*p >> (bits - 10)).digits()[0] & 0x1ff;
             if hi {
                 t == 0x1ff
             } else {
-                t == 0
+                t < 0x40
             }
         })
     };
